@@ -209,6 +209,39 @@ def check(ctx):
            "the top-level branch differs from the raw table only in pred_margin (race-call adjustment)" if not extra
            else f"top-level branch additionally rewrites {extra}")
 
+    # the unit table's bootstrap predictions are the very vectors the aggregate totals sum over the nonreporting rows
+    uf = ctx.fn(BM, "BootstrapElectionModel.get_unit_predictions")
+    ur = ctx.builder(inline=lambda *a: False).summarize(uf, self_cls=bc).ret()
+    SELF_ = ("param", "self")
+    want_u = ("tuple", (("attr", SELF_, "weighted_yz_test_pred"), ("attr", SELF_, "weighted_z_test_pred")))
+    oku = ur == want_u
+    ctx.ob("C02.R4.unit-terms", f"{uf.qualname}|unit margin / turnout predictions are the summed vectors", oku, uf.where(),
+           "get_unit_predictions returns (self.weighted_yz_test_pred, self.weighted_z_test_pred): the unit table shows exactly what the "
+           "aggregate totals sum over the nonreporting rows" if oku
+           else f"get_unit_predictions returns {ir.show(ur, maxdepth=4)}: the unit table's predictions are not the vectors the group totals "
+                f"(indicator.T @ self.weighted_yz_test_pred / self.weighted_z_test_pred) are built from, so groups are not the sum of their units")
+    # .. and the client / results handler pass them to the unit table unchanged
+    ge = ctx.fn("elexmodel.client", "ModelClient.get_estimates")
+    okpass = False
+    for c in util.own_nodes(ge, ast.Assign):
+        if isinstance(c.value, ast.Call) and isinstance(c.value.func, ast.Attribute) and c.value.func.attr == "get_unit_predictions" \
+                and isinstance(c.targets[0], ast.Tuple) and len(c.targets[0].elts) == 2 and all(isinstance(e, ast.Name) for e in c.targets[0].elts):
+            n_pred, n_turn = (e.id for e in c.targets[0].elts)
+            p1 = [x for x in util.method_calls(ge.node, "add_unit_predictions") if len(x.args) == 2 and isinstance(x.args[1], ast.Name) and x.args[1].id == n_pred]
+            p2 = [x for x in util.method_calls(ge.node, "add_unit_turnout_predictions") if len(x.args) == 1 and isinstance(x.args[0], ast.Name) and x.args[0].id == n_turn]
+            okpass = bool(p1) and bool(p2)
+    hb2 = ctx.builder()
+    for meth, colname in (("add_unit_predictions", None), ("add_unit_turnout_predictions", "pred_turnout")):
+        hf = ctx.fn(MR, f"ModelResultsHandler.{meth}")
+        hs = hb2.summarize(hf)
+        nt = hs.attrs.get("nonreporting_units")
+        last_param = ("param", hf.params[-1])
+        okh = nt is not None and nt[0] == "setitem" and nt[3] == last_param and nt[1] == ("attr", ("param", "self"), "nonreporting_units")
+        okpass = okpass and okh
+    ctx.ob("C02.R4.unit-pass", f"{ge.qualname}|unit predictions reach the unit table unchanged", okpass, ge.where(),
+           "both vectors returned by get_unit_predictions are written as pred_<estimand> / pred_turnout of the nonreporting units" if okpass
+           else "the vectors returned by get_unit_predictions are not what the handler writes into the nonreporting units' pred columns")
+
     # ---- R5 positions / field order ---------------------------------------------------------------
     af = ctx.fn(MR, "ModelResultsHandler.add_agg_predictions")
     loops = [n for n in util.own_nodes(af, ast.For)]
